@@ -283,6 +283,24 @@ def run_sequence(res: Result, desc, cases) -> None:
                 res.violation(f'C18/next-command-{kind}-after-{"refused" if not accepted else "accepted"}-definition:{form}', f'after {text[:90]!r} ({"refused" if not accepted else "accepted"}) the valid command for {pfx} gave {[str(x) for x in got][:3]}', {'before': text, 'form': form, 'field': case['field'], 'position': case['pos']}, f'sequence:{form}')
                 continue
             res.ok(f'sequence:{form}:{"accepted" if accepted else "refused"}', ('seq', case['field'], case['pos'], form))
+            # and a flow rule of EACH family right behind a static command of either: what a rule may contain depends on its own
+            # family, never on the address family of the command before it
+            for fam, rule, call in (
+                (1, 'announce flow route { match { dscp =10; } then { discard; } }', 'flow'),
+                (2, 'announce flow route { match { source 2001:db8::/32; flow-label =5; } then { discard; } }', 'flow'),
+                (1, 'announce ipv4 flow dscp =10 discard', 'v4'),
+                (2, 'announce ipv6 flow flow-label =10 discard', 'v6'),
+            )[probe_n % 4 : probe_n % 4 + 1]:
+                try:
+                    fr = list({'flow': api.api_flow, 'v4': api.api_announce_v4, 'v6': api.api_announce_v6}[call](rule))
+                    ferr = '' if fr else str(api.configuration.error).strip().split('\n')[-1][:120]
+                except Exception as e:  # noqa
+                    fr, ferr = [], f'{type(e).__name__}: {e}'
+                fcls = f'sequence:flow-after-static:{call}:afi{fam}'
+                if not fr or int(fr[0].nlri.afi) != fam:
+                    res.violation(f'C18/legal-refused:flow-after-{"ipv6" if case["afi"] == 2 else "ipv4"}-static:{call}', f'a valid {"IPv4" if fam == 1 else "IPv6"} flow rule right after {text[:60]!r}: {ferr or [str(x) for x in fr]}', {'before': text, 'rule': rule, 'error': ferr}, fcls)
+                else:
+                    res.ok(fcls, ('flow-after-static', call, fam, case['afi']))
 
 
 def run_flow_vpls(res: Result, desc) -> None:
